@@ -7,6 +7,9 @@ import GdcVerif.Lemmas.J2kTagTree
 import GdcVerif.Lemmas.J2kBio
 import GdcVerif.Lemmas.J2kBandState
 import GdcVerif.Lemmas.J2kPacketHeader
+import GdcVerif.Lemmas.J2kGlueImage
+import GdcVerif.Lemmas.J2kGlueSample
+import GdcVerif.Lemmas.J2kContainer
 /-!
   C04 — JPEG 2000 reversible path, single tile: exact reconstruction for every configuration.
 
@@ -455,3 +458,157 @@ example :
   rcases hcss with rfl | rfl | rfl <;> (simp [CsOk, COk, BandE.fresh]; try omega)
 
 end J2kPH
+
+/-! ## Round 5 — the composition: glue model of Encoder.Encode → Decoder.Decode, single tile, single layer, one
+    codeword segment per block (Model/J2kGlue*.lean; tied to the real encoder and decoder by whole-codestream
+    correspondence `j2k-glue-img-enc/dec` and piecewise `j2k-glue-enc/dec/t1enc/t1dec`) -/
+namespace J2kGlue
+open J2k J2kPH Dwt53
+
+/-- (G1) THE TILE-PART BODY, T2 only: packets back to back, each = header bits through bioWriter/flush ++ the included
+    blocks' bytes; the decoder — given only the band geometry of each precinct — parses every header from the
+    reader's bit supply, aligns, cuts the bodies by the decoded lengths, and ends exactly where the encoder stopped.
+    Composes `packet_header_roundtrip` (tag trees, pass/length codes), `bio_roundtrip` (stuffing, alignment) and the
+    body concatenation, for any packet sequence. -/
+theorem tile_body_roundtrip (ps : List Packet) (tail : List Nat) (h : ∀ p ∈ ps, PacketOk p) :
+    decTile (ps.map fun p => p.map Band.spec) (encTile ps ++ tail) = some (ps.map fun p => some (Packet.expected p), tail) :=
+  decTile_encTile ps tail h
+
+/-- (G2) ONE CODE-BLOCK AROUND T1 — the hand-over: encodeCodeBlock's layout (numPasses = 3·numbps − 2, zero bit-planes
+    = bandNumbps − numbps, 1 pass for an all-zero block) travels through the packet header, estimateMaxBitplane
+    rebuilds the top bit-plane from pass count and zero bit-planes, and `C20.t1_roundtrip` gives the coefficients back.
+    The block's bytes are non-empty, its fields admissible for the packet header (1..164 passes, < 32 zero bit-planes). -/
+theorem codeblock_t1_handover (b : Blk) (hok : BlkOk b) :
+    ∃ np zbp data, t1Encode b = some (np, zbp, data) ∧ data ≠ [] ∧ 1 ≤ np ∧ np ≤ 164 ∧ zbp < 32 ∧
+      data.length ≤ 65535 ∧ t1Decode b.w b.h b.orient b.nb ⟨true, np, data.length, zbp⟩ data = some b.coeffs :=
+  blk_roundtrip b hok
+
+/-- (G3) T2 + T1 FOR A TILE: the coefficients of every code-block entering T1 on the encoder are the coefficients
+    leaving T1 on the decoder, for every packet sequence both sides agree on (C19 `packet_sequence_agreement`). -/
+theorem tile_codeblocks_roundtrip (ps : List PPacket) (tail : List Nat) (hok : ∀ p ∈ ps, PPacketOk p) :
+    ∃ bytes, encodeTileBody ps = some bytes ∧
+      decodeTileBody (ps.map fun p => p.map PBand.geo) (bytes ++ tail) =
+        some (ps.map fun p => p.map fun b => b.blks.map fun pb => pb.blk.coeffs) :=
+  tile_blocks_roundtrip ps tail hok
+
+/-- (G4) SUB-BAND CUT + CODE-BLOCK PARTITION + PLACEMENT: the bands of all resolutions tile the Mallat layout, the
+    `cbw × cbh` grid tiles every band, and the decoder's block-by-block copy restores every sample of every
+    component plane the encoder cut the blocks from (default precincts, tile at the canvas origin) -/
+theorem cut_paste_identity (c : TCfg) (nC prog : Nat) (planes : Nat → Plane) (hw : 0 < c.cbw) (hh : 0 < c.cbh)
+    (k x y : Nat) (hk : k < nC) (hx : x < c.W) (hy : y < c.H) :
+    pasteTile c nC prog ((tilePackets c nC prog planes).map coeffsOf) k x y = planes k x y :=
+  pasteTile_tilePackets c nC prog planes hw hh k x y hk hx hy
+
+/-- (G5) the magnitude side conditions are met by the codec's sample ranges: `bndL L (2^P) < 2^25` gives both
+    "no int32 operation of the 5/3 transform wraps" (C20 needs ≤ 2^29 − 1) and "every coefficient fits `coeff << 6`
+    in int32" — 8-bit up to 8 levels, 12-bit up to 6, 16-bit up to 4.  (16-bit with 5 or 6 levels: the crude bound
+    `M ↦ 4M + 3` per level is too weak; the int32 side still holds — C20 `dwt_magnitude_bound_examples`.) -/
+theorem dwt_coefficient_bound_examples :
+    bndL 8 (2 ^ 8) < 2 ^ 25 ∧ bndL 6 (2 ^ 12) < 2 ^ 25 ∧ bndL 4 (2 ^ 16) < 2 ^ 25 := by decide
+
+/-- encoder: container samples → convertPixelData → DC shift → RCT → 5/3 → cut → T1 → packets → codestream -/
+def encodeImage (c : ICfg) (samp : Nat → Nat → Nat → Int) : Option (List Nat) :=
+  (encodeBody c fun k x y => frontSample c.P c.signed (samp k x y)).bind (frame c)
+
+/-- decoder: `unframe` stands for the codestream parser's result (the tile-part data of tile 0; the coding parameters
+    it reads from SIZ/COD/QCD are `c`), then packets → T1 → paste → inverse 5/3 → inverse RCT → inverse DC shift →
+    GetPixelData's container bytes -/
+def decodeImage (c : ICfg) (unframe : List Nat → Option (List Nat)) (stream : List Nat) : Option (Nat → Nat → Nat → Int × Int) :=
+  ((unframe stream).bind (decodeBody c)).map fun v k x y => writeSample c.P c.signed (dcUnshift c.P c.signed (v k x y))
+
+/-- (G6) `reversible_single_tile_roundtrip` — THE COMPOSITION.  For a single-tile, single-layer image of 1..16-bit
+    samples (signed or not), any component count (RCT for three with MCT on), any progression order, positive
+    code-block size, `L` levels with `bndL L (2^P) < 2^25`: Decode(Encode(container)) = container, sample for sample.
+
+    Instantiated with the ACTUAL theorems: `sample_roundtrip` (container ↔ DC-shifted sample), C20 `rct_inverse`,
+    C20 `inverse53_forward53_multilevel_int32` (+ `forwardLevels_bnd`), (G4), (G2) over C20 `t1_roundtrip`, (G1) over
+    `packet_header_roundtrip` / `bio_roundtrip`, C16 `j2k_psot_sum` (the codestream exists and ends in EOC).
+
+    NAMED HYPOTHESES — what is still unproved:
+    * `hz : ZeroBlockHyp`    — the decoder's single cleanup pass over the bytes of a merely flushed MQ coder finds no
+                               significant coefficient (all-zero code-blocks are sent with 1 pass, not skipped);
+    * `hs : SegmentLenHyp`   — T1 output of a block ≤ 65535 bytes (decodePacket truncates longer segments);
+    * `hframe`               — the parser hands TileDecoder the tile-part body the encoder framed (SOT/Psot/SOD, EOC) and
+                               the parameters of SIZ/COD/QCD (per segment: C16 `siz/cod/qcd_*_roundtrip`,
+                               `tilepart_length_is_psot`; the composed parser walk is not stated here);
+    and, inside the model (tied by correspondence, not proved): the T1 configuration — Go runs T1 on `coeff << 6` with
+    6 fractional bits and decodes with OpenJPEG reconstruction + `/2`; the glue calls the C20 model (no fractional bits,
+    plain reconstruction, one bit-plane lower). -/
+theorem reversible_single_tile_roundtrip (c : ICfg) (samp : Nat → Nat → Nat → Int)
+    (hw : 0 < c.cbw) (hh : 0 < c.cbh) (hP1 : 1 ≤ c.P) (hP2 : c.P ≤ 16) (hL : bndL c.L (2 ^ c.P) < 2 ^ 25)
+    (hr : ∀ k x y, inRange c.P c.signed (samp k x y))
+    (hz : ZeroBlockHyp) (hs : SegmentLenHyp)
+    (unframe : List Nat → Option (List Nat))
+    (hframe : ∀ body stream, frame c body = some stream → ∃ tail, unframe stream = some (body ++ tail)) :
+    ∃ stream, encodeImage c samp = some stream ∧ ∃ out, decodeImage c unframe stream = some out ∧
+      ∀ k x y, k < c.C → x < c.W → y < c.H → out k x y = container c.P (samp k x y) := by
+  have hPnat : ((c.P : Nat) : Int).toNat = c.P := by simp
+  have hv : ∀ k x y, -(2 ^ (c.P - 1)) ≤ frontSample c.P c.signed (samp k x y) ∧
+      frontSample c.P c.signed (samp k x y) < 2 ^ (c.P - 1) := by
+    intro k x y
+    have := frontSample_bound (c.P : Int) c.signed (samp k x y) (by omega) (by omega) (hr k x y)
+    rw [hPnat] at this
+    exact this
+  -- the codestream exists
+  have hstream : ∀ body, ∃ stream, frame c body = some stream := by
+    intro body
+    obtain ⟨bytes, hb, _, _⟩ := JpegC.j2k_total_length c.params (JpegC.losslessQcdInfo c.params)
+      [JpegC.classicTilePart 0 [] body] rfl
+    exact ⟨bytes, by unfold frame; rw [hb]⟩
+  -- body, framed
+  obtain ⟨body, henc, _⟩ := image_core_roundtrip c (fun k x y => frontSample c.P c.signed (samp k x y)) [] hw hh hP1 hP2 hL hv hz hs
+  obtain ⟨stream, hfr⟩ := hstream body
+  obtain ⟨tail, hun⟩ := hframe body stream hfr
+  obtain ⟨body', henc', v', hdec, hv'⟩ := image_core_roundtrip c (fun k x y => frontSample c.P c.signed (samp k x y)) tail hw hh hP1 hP2 hL hv hz hs
+  have hbb : body' = body := by rw [henc] at henc'; injection henc' with h; exact h.symm
+  subst hbb
+  refine ⟨stream, by unfold encodeImage; rw [henc]; exact hfr, ?_⟩
+  refine ⟨fun k x y => writeSample c.P c.signed (dcUnshift c.P c.signed (v' k x y)),
+    by unfold decodeImage; rw [hun]; simp [hdec], ?_⟩
+  intro k x y hk hx hy
+  simp only []
+  rw [hv' k x y hk hx hy, ← sampleRoundTrip_front]
+  exact sample_roundtrip (c.P : Int) c.signed (samp k x y) (by omega) (by omega) (hr k x y)
+
+/-- (G7) where the body sits: the codestream is main header ++ 12 bytes SOT ++ SOD ++ body ++ EOC (C16 model of
+    buildCodestream / writeTile), so the framing hypothesis `hframe` of (G6) is satisfiable — by the reader that skips
+    `|main header| + 14` bytes — with `tail = FF D9`; the core theorem holds for every tail -/
+theorem frame_layout (c : ICfg) (body : List Nat) :
+    ∃ pre, pre.length = (JpegC.j2kMainHeader c.params (JpegC.losslessQcdInfo c.params)).length + 14 ∧
+      frame c body = some (pre ++ (body ++ [0xFF, 0xD9])) := by
+  refine ⟨JpegC.j2kMainHeader c.params (JpegC.losslessQcdInfo c.params) ++
+    (JpegC.writeTilePart (JpegC.classicTilePart 0 [] body)).take 14, ?_, ?_⟩
+  · have h := JpegC.writeTilePart_length (JpegC.classicTilePart 0 [] body)
+    simp only [List.length_append, List.length_take]
+    have : 14 ≤ (JpegC.writeTilePart (JpegC.classicTilePart 0 [] body)).length := by
+      rw [h]; simp [JpegC.TilePart.psot, JpegC.classicTilePart]
+    omega
+  · unfold frame
+    simp [JpegC.j2kStream, JpegC.j2kTail, JpegC.writeTLM, ICfg.params, JpegC.Outcome.map, JpegC.writeTileParts,
+      JpegC.writeTilePart, JpegC.classicTilePart, JpegC.be16, JpegC.be32]
+    decide
+
+/-- non-vacuity of (G1): the hypothesis is satisfiable — a resolution with two live bands (HL with a 2×1 grid, HH 1×1),
+    one block's data ending in 0xFF -/
+example : PacketOk [⟨2, 1, [⟨0, 0, 3, 4, [0x12, 0xFF]⟩, ⟨1, 0, 1, 7, [0x80]⟩]⟩, ⟨1, 1, [⟨0, 0, 7, 1, [1, 2, 3]⟩]⟩] := by
+  unfold PacketOk; decide
+
+/-- non-vacuity of (G2), the hand-over arithmetic by evaluation: a 2×2 block with top bit-plane 1 in a band of 9
+    bit-planes: 4 passes, 7 zero bit-planes, and the decoder's estimate of the top plane (OpenJPEG convention: a
+    count) from either source; an all-zero block: 1 pass, all 9 planes missing, estimate 1.
+    (`ZeroBlockHyp` itself is exercised by the correspondence lines `j2k-glue-t1dec` on constant images.) -/
+example :
+    cblkNumbps ⟨2, 2, 1, 9, [1, 0, 0, -3]⟩ = 2 ∧ passLayout 2 9 = (4, 7) ∧ estimateMaxBitplane 4 7 9 = 2 ∧
+    cblkNumbps ⟨2, 2, 0, 9, [0, 0, 0, 0]⟩ = 0 ∧ passLayout 0 9 = (1, 9) ∧ estimateMaxBitplane 1 9 9 = 1 ∧
+    estimateMaxBitplane 13 0 3 = 5 := by decide
+
+/-- non-vacuity of (G4)/(G6): the geometry of a 5×3 tile-component, 1 level, 4×4 code-blocks: LL 3×2, HL 2×2, LH 3×1,
+    HH 2×1, one block each; packet sequence for 3 components, resolution-major and component-major -/
+example :
+    bandRects 5 3 1 0 = [⟨0, 0, 0, 3, 2⟩] ∧ bandRects 5 3 1 1 = [⟨1, 3, 0, 2, 2⟩, ⟨2, 0, 2, 3, 1⟩, ⟨3, 3, 2, 2, 1⟩] ∧
+    blkRects 4 4 ⟨1, 3, 0, 2, 2⟩ = [⟨0, 0, 3, 0, 2, 2⟩] ∧
+    packetSeq ⟨5, 3, 1, 4, 4, fun _ _ => 9⟩ 3 0 = [(0, 0), (0, 1), (0, 2), (1, 0), (1, 1), (1, 2)] ∧
+    packetSeq ⟨5, 3, 1, 4, 4, fun _ _ => 9⟩ 3 4 = [(0, 0), (1, 0), (0, 1), (1, 1), (0, 2), (1, 2)] ∧
+    packetSeq ⟨1, 1, 2, 4, 4, fun _ _ => 9⟩ 1 0 = [(0, 0)] := by decide
+
+end J2kGlue
